@@ -132,3 +132,118 @@ Qed.
 Theorem positions_is_source : forall (NN : Num) (syms : list (tf NN)) (s : site NN),
   gen_positions NN syms s = positions NN syms s.
 Proof. intros NN syms s. unfold gen_positions, positions. cbv zeta. now rewrite map_map. Qed.
+
+(* ---- the shape-level overlap tests: iproduct!(self, other).any(|(s, o)| s.intersects(o)) is the model's nested search *)
+Lemma existsb_flat_map {A B} (f : B -> bool) (g : A -> list B) (l : list A) :
+  existsb f (flat_map g l) = existsb (fun x => existsb f (g x)) l.
+Proof.
+  induction l as [|x l IH]; [reflexivity|]. cbn [flat_map existsb]. rewrite existsb_app, IH. reflexivity.
+Qed.
+
+Lemma existsb_map {A B} (f : B -> bool) (h : A -> B) (l : list A) :
+  existsb f (map h l) = existsb (fun x => f (h x)) l.
+Proof. induction l as [|x l IH]; [reflexivity|]. cbn [map existsb]. rewrite IH. reflexivity. Qed.
+
+From PV Require Import proofs.SourceFacts.
+Section ShapeSearch.
+  Variable NN : Num.
+
+  Theorem shape_intersects_is_source : forall (l m : list (seg NN)) (a b : list (disc NN)),
+    gen_poly_intersects NN l m = shape_intersects NN (Poly l) (Poly m)
+    /\ gen_mol_intersects NN a b = shape_intersects NN (Mol a) (Mol b).
+  Proof.
+    intros l m a b. unfold gen_poly_intersects, gen_mol_intersects. cbn [shape_intersects].
+    rewrite !existsb_flat_map. split.
+    - apply existsb_ext_in. intros s _. rewrite existsb_map. apply existsb_ext_in. intros o _. apply seg_intersects_is_source.
+    - apply existsb_ext_in. intros s _. rewrite existsb_map. apply existsb_ext_in. intros o _. apply disc_intersects_is_source.
+  Qed.
+End ShapeSearch.
+
+(* ---- Shape::enclosing_radius as a whole: .map(term).fold(f64::MIN, f64::max) *)
+Section RadiusSource.
+  Variable NN : Num.
+  Theorem enclosing_radius_is_source : forall fmin_ (l : list (seg NN)) (m : list (disc NN)),
+    gen_poly_radius NN fmin_ l = poly_radius NN fmin_ l /\ gen_mol_radius NN fmin_ m = mol_radius NN fmin_ m.
+  Proof.
+    intros fmin_ l m. unfold gen_poly_radius, gen_mol_radius, poly_radius, mol_radius. split.
+    - revert fmin_. induction l as [|x l IH]; intros a; [reflexivity|]. cbn [map fold_left]. apply IH.
+    - revert fmin_. induction m as [|x m IH]; intros a; [reflexivity|]. cbn [map fold_left]. apply IH.
+  Qed.
+End RadiusSource.
+
+(* ---- Shape::area as a whole: LineShape (sum over the edges) and MolecularShape2 (discs minus the pairwise lenses over
+   itertools' tuple_combinations, which visits the pairs the model's loop over tails visits, in the same order) *)
+Lemma fold_left_flat_map {A B C} (f : C -> B -> C) (g : A -> list B) (l : list A) (c : C) :
+  fold_left f (flat_map g l) c = fold_left (fun acc x => fold_left f (g x) acc) l c.
+Proof.
+  revert c. induction l as [|x l IH]; intros c; [reflexivity|]. cbn [flat_map fold_left]. rewrite fold_left_app. apply IH.
+Qed.
+
+Section AreaSource.
+  Variable NN : Num.
+  Notation T := (carrier NN).
+  Variable fsin facos : T -> T.
+  Variable pi_ : T.
+
+  Theorem poly_area_whole_is_source : forall (l : list (seg NN)),
+    gen_poly_area NN fsin pi_ l = poly_area NN (fsin ((n2 * pi_) / nofZ (Z.of_nat (List.length l)))) l.
+  Proof.
+    intros l. unfold gen_poly_area, poly_area. cbv zeta. rewrite fold_left_map. reflexivity.
+  Qed.
+
+  Theorem mol_area_whole_is_source : forall (l : list (disc NN)),
+    gen_mol_area NN facos pi_ l = mol_area NN facos pi_ l.
+  Proof.
+    intros l. unfold gen_mol_area, mol_area. cbv zeta. rewrite !fold_left_map, fold_left_flat_map.
+    f_equal. apply fold_left_ext_in. intros acc xr _. rewrite fold_left_map. reflexivity.
+  Qed.
+
+  (* LJShape2::energy as a whole: the sum over iproduct!(self, other) of the pair energies, in that order *)
+  Variable powi : T -> Z -> T.
+  Theorem ljshape_energy_is_source : forall (a b : list (lj NN)),
+    gen_ljshape_energy NN powi a b = ljshape_energy NN powi a b.
+  Proof.
+    intros a b. unfold gen_ljshape_energy, ljshape_energy. rewrite fold_left_map.
+    apply fold_left_ext_in. intros acc [s o] _. reflexivity.
+  Qed.
+End AreaSource.
+
+(* ---- PackedState::total_shapes, relative_positions, cartesian_positions as wholes *)
+Section StatePipelines.
+  Variable NN : Num.
+
+  Lemma fold_count {A} (n : nat) (l : list A) (acc : N) :
+    fold_left (fun sum (_ : A) => N.add sum (N.of_nat n)) l acc = N.add acc (N.of_nat (length l * n)).
+  Proof.
+    revert acc. induction l as [|x l IH]; intros acc; cbn [fold_left length].
+    - cbn. now rewrite N.add_0_r.
+    - rewrite IH. cbn [Nat.mul]. rewrite Nat2N.inj_add. lia.
+  Qed.
+
+  Theorem total_shapes_is_source : forall st : pstate NN,
+    Z.of_N (gen_total_shapes NN st) = total_shapes NN st.
+  Proof.
+    intros st. unfold gen_total_shapes, total_shapes. rewrite fold_count. cbn [N.add]. rewrite nat_N_Z. reflexivity.
+  Qed.
+
+  Theorem state_positions_are_source : forall st : pstate NN,
+    gen_relative_positions NN st = relative_positions NN st
+    /\ gen_cartesian_positions NN st = cartesian_positions NN st.
+  Proof.
+    intros st. unfold gen_relative_positions, gen_cartesian_positions, relative_positions, cartesian_positions.
+    assert (E : flat_map (gen_positions NN (p_syms NN st)) (p_sites NN st) = flat_map (positions NN (p_syms NN st)) (p_sites NN st)).
+    { apply flat_map_ext. intros s. apply positions_is_source. }
+    split; [exact E|]. unfold gen_relative_positions. rewrite E. reflexivity.
+  Qed.
+
+  Theorem lj_state_pipelines_are_source : forall st : ljstate NN,
+    gen_lj_total_shapes NN st = N.of_nat (List.length (l_sites NN st) * List.length (l_syms NN st))
+    /\ gen_lj_relative_positions NN st = lj_relative NN st
+    /\ gen_lj_cartesian_positions NN st = lj_cartesian NN st.
+  Proof.
+    intros st. unfold gen_lj_total_shapes, gen_lj_relative_positions, gen_lj_cartesian_positions, lj_relative, lj_cartesian.
+    assert (E : flat_map (gen_positions NN (l_syms NN st)) (l_sites NN st) = flat_map (positions NN (l_syms NN st)) (l_sites NN st)).
+    { apply flat_map_ext. intros s. apply positions_is_source. }
+    split; [rewrite fold_count; reflexivity|]. split; [exact E|]. unfold gen_lj_relative_positions. rewrite E. reflexivity.
+  Qed.
+End StatePipelines.
